@@ -1,5 +1,6 @@
 import RbV.Model.Occ
 import RbV.Model.OccTable
+import RbV.Model.InvBWT
 /-!
 # C04 — BWT, less and Occ are exact (mirror models of `bwt.rs` refine the specification)
 
@@ -64,5 +65,40 @@ example : bwtModel [99, 97, 98, 99, 97, 36] [5, 4, 1, 2, 3, 0] = [97, 99, 99, 97
 theorem occCol_exact (bwt : List Nat) (c r : Nat) (h : r < bwt.length) :
     (occCol bwt c)[r]? = some ((bwt.take (r + 1)).count c) :=
   occCol_getElem? bwt c r h
+
+
+/-- **LF-mapping lemma**: for a text whose last symbol is its unique smallest symbol, a sorted suffix permutation
+`sa` (first entry n−1) and `bwt = bwtRef t sa`: `less[c] + Occ(c, r) − 1` with `c = bwt[r]` is the row of the
+position that cyclically precedes `sa[r]`. -/
+theorem lf_mapping (t sa : List Nat)
+    (hperm : sa.Perm (List.range t.length))
+    (hsorted : sa.Pairwise (fun i j => lexLt (t.drop i) (t.drop j)))
+    (hhead : sa.head? = some (t.length - 1))
+    (hpos : 0 < t.length)
+    (hmin : ∀ p, p < t.length → t.getD (t.length - 1) 0 ≤ t.getD p 0)
+    (huniq : ∀ p, p < t.length → t.getD p 0 = t.getD (t.length - 1) 0 → p = t.length - 1)
+    (r : Nat) (hr : r < t.length) :
+    lessRef (bwtRef t sa) ((bwtRef t sa).getD r 0) + occRef (bwtRef t sa) r ((bwtRef t sa).getD r 0) - 1 =
+      sa.idxOf ((sa.getD r 0 + t.length - 1) % t.length) :=
+  LF.lf_mapping t sa ⟨hperm, hsorted, hhead⟩ ⟨hpos, hmin, huniq⟩ r hr
+
+/-- **`invert_bwt(bwt(t)) = t`**: the mirror model of `bwtfind` + `invert_bwt` (less array of size `m`, slots
+`less[c]++`, `r = bwtfind[r]; push bwt[r]`) reproduces every text whose last symbol is its unique smallest symbol
+from the BWT of its sorted suffix permutation. -/
+theorem invert_bwt_roundtrip (t sa : List Nat) (m : Nat)
+    (hperm : sa.Perm (List.range t.length))
+    (hsorted : sa.Pairwise (fun i j => lexLt (t.drop i) (t.drop j)))
+    (hhead : sa.head? = some (t.length - 1))
+    (hpos : 0 < t.length)
+    (hmin : ∀ p, p < t.length → t.getD (t.length - 1) 0 ≤ t.getD p 0)
+    (huniq : ∀ p, p < t.length → t.getD p 0 = t.getD (t.length - 1) 0 → p = t.length - 1)
+    (hm : ∀ x ∈ t, x < m) :
+    InvBWT.invertModel (bwtRef t sa) m = t :=
+  InvBWT.invert_bwt_correct t sa ⟨hperm, hsorted, hhead⟩ ⟨hpos, hmin, huniq⟩ m hm
+
+example : InvBWT.invertModel (bwtRef [99, 97, 98, 99, 97, 36] [5, 4, 1, 2, 3, 0]) 101 = [99, 97, 98, 99, 97, 36] := by
+  decide
+
+example : InvBWT.bwtfindModel [97, 99, 99, 97, 98, 36] 101 = [5, 0, 3, 4, 1, 2] := by decide
 
 end RbV.Thm.C04
